@@ -234,3 +234,44 @@ def kernel_state_changed(ks_in, ks_out) -> bool:
     if len(a) != len(b):
         return True
     return any(not np.array_equal(np.asarray(x), np.asarray(y)) for x, y in zip(a, b))
+
+
+# ---------------------------------------------------------------------------------
+# Liesel model with a TRANSFORMED parameter (Var.transform(tfb.Exp()))
+# ---------------------------------------------------------------------------------
+
+Y_TR = np.array([0.7, -1.1, 0.4, 1.6, -0.3], dtype=np.float64)
+
+
+def build_transformed_model():
+    """
+    tau2 ~ InverseGamma(2, 1.5), transformed with tfb.Exp(): t = log tau2 is the parameter
+    m ~ N(0, 2);  y_i ~ N(m, sqrt(tau2))  (observed)
+    """
+    import jax.numpy as jnp
+    import liesel.model as lsl
+    import tensorflow_probability.substrates.jax.bijectors as tfb
+    import tensorflow_probability.substrates.jax.distributions as tfd
+
+    tau2 = lsl.param(jnp.float32(0.8), lsl.Dist(tfd.InverseGamma, concentration=2.0, scale=1.5), name="tau2")
+    tau2.transform(tfb.Exp())
+    m = lsl.param(jnp.float32(0.2), lsl.Dist(tfd.Normal, loc=0.0, scale=2.0), name="m")
+    sd = lsl.Var(lsl.Calc(jnp.sqrt, tau2), name="sd")
+    y = lsl.obs(jnp.asarray(Y_TR, dtype=jnp.float32), lsl.Dist(tfd.Normal, loc=m, scale=sd), name="y")
+    return lsl.GraphBuilder().add(y).build_model()
+
+
+TR_PARAMS = ["tau2_transformed", "m"]
+
+
+def ref_transformed(params: dict) -> float:
+    """float64 log posterior in (t, m) with the change-of-variables term."""
+    t = float(params["tau2_transformed"])
+    m = float(params["m"])
+    tau2 = math.exp(t)
+    a, b = 2.0, 1.5
+    lp_tau2 = a * math.log(b) - math.lgamma(a) - (a + 1) * math.log(tau2) - b / tau2
+    lp_t = lp_tau2 + t  # |d tau2 / d t| = exp(t)
+    lp_m = -0.5 * (m / 2.0) ** 2 - math.log(2.0) - 0.5 * LOG2PI
+    lik = float(np.sum(-0.5 * (Y_TR - m) ** 2 / tau2 - 0.5 * math.log(tau2) - 0.5 * LOG2PI))
+    return lp_t + lp_m + lik
